@@ -242,6 +242,9 @@ def build_registry():
             elif callable(f):
                 ps = [p for p in inspect.signature(f).parameters.values() if p.name != 'self']
                 reg.append(Entry(f'{short}.{n}', 'method', n, short, n, ps))
+        if short == 'Quaternion':
+            for op in ('__add__', '__sub__', '__mul__', '__matmul__', '__pow__'):
+                reg.append(Entry(f'Quaternion.{op}', 'operator', op, short, op, []))
         for route in {'Quaternion': ['array', 'array3', 'dcm', 'rpy', 'angles'], 'QuaternionArray': ['array', 'array3', 'DCM', 'rpy', 'angles'],
                       'DCM': ['array', 'q', 'rpy', 'euler', 'axang', 'x', 'y', 'z']}[short]:
             reg.append(Entry(f'{short}(<{route}>)', 'ctor', route, short, '__init__', []))
@@ -345,6 +348,14 @@ def prepare(entry, ctx):
                     extra[-1] = kw['weights']
                 label += '[span]'
         return label, None, args + extra, (recv, entry.target, kw, len(args))
+    if entry.kind == 'operator':
+        # q + p, q - p, q * p, q @ p, q ** a with a caller-owned array (or scalar) on the right
+        recv = make_receiver('Quaternion', ctx)
+        other = r.uniform(-2.0, 3.0) if entry.target == '__pow__' else (ctx.quat() if r.random() < 0.8 else 2.5)
+        args = [other] if isinstance(other, np.ndarray) else []
+        kw = {}
+        op = entry.target
+        return f'Quaternion.{op}', (lambda: getattr(recv, op)(other)), args, None
     if entry.kind == 'property':
         recv = make_receiver(entry.mod, ctx)
         return entry.name, None, [], (recv, entry.target, None, 0)
